@@ -192,6 +192,35 @@ func concatSliceValue(val reflect.Value) (reflect.Value, error) {
 		return f(val)
 	}
 
+	if elmType.Kind() == reflect.Interface {
+		// chunks of an interface type: what they hold is concatenated by its own dynamic type, the
+		// way the values of a map[string]any are; nil chunks carry nothing
+		nonNil := make([]any, 0, val.Len())
+		for i := 0; i < val.Len(); i++ {
+			if e := val.Index(i); !e.IsNil() {
+				nonNil = append(nonNil, e.Interface())
+			}
+		}
+		if len(nonNil) > 1 {
+			sv, err := toSliceValue(nonNil)
+			if err != nil {
+				return reflect.Value{}, err
+			}
+			var cv reflect.Value
+			if sv.Type().Elem().Kind() == reflect.Map {
+				cv, err = concatMaps(sv)
+			} else {
+				cv, err = concatSliceValue(sv)
+			}
+			if err != nil {
+				return reflect.Value{}, err
+			}
+			ret := reflect.New(elmType).Elem()
+			ret.Set(cv)
+			return ret, nil
+		}
+	}
+
 	// if all elements in the slice are empty, return an empty value
 	// if there is exactly one non-empty element in the slice, return that non-empty element
 	// otherwise, throw an error.
